@@ -6,6 +6,8 @@ cd "$(dirname "$0")/harness"
 export CARGO_NET_OFFLINE=true RUSTC_WRAPPER= RUSTFLAGS="--cfg redis_rust_verif"
 cargo build --offline 2>&1 | tail -2
 cargo build --offline --release 2>&1 | tail -2
+# opt-all flavour: the feature set of the shipped benchmark image (legs *-opt of C01-C04, C15); a failure only drops those legs
+CARGO_TARGET_DIR=../target/opt cargo build --offline --release --features opt 2>&1 | tail -1 || true
 # ThreadSanitizer flavour (C02 quick leg); a failure here only drops that leg
 RUSTFLAGS="--cfg redis_rust_verif -Zsanitizer=thread" CARGO_TARGET_DIR=../target/tsan cargo +nightly build --release --no-default-features -Zbuild-std --target x86_64-unknown-linux-gnu 2>&1 | tail -1 || true
 # the repository's real server binaries for the end-to-end legs (also rebuilt by ./check on every run)
